@@ -441,7 +441,37 @@ def clock_rows(O):
 def end_is_final(O):
     from . import C01
     from . import dri
-    C01.end_only_when_exhausted(O, dri.Rep(dict(FACTS), B.protocol_battery(), B.protocol_judge))
+    R = dri.Rep(dict(FACTS), B.protocol_battery(), B.protocol_judge)
+    C01.end_only_when_exhausted(O, R)
+    # get_row: when the interpreter reports the end, get_row reports it too - having called nothing else and stored
+    # nothing (no rewinding, no reset of what it remembers), so the next call asks the exhausted interpreter again
+    fn = O.find("::get_row")
+    eng = O.engine()
+    eng.auto_inline = False
+    hs = sorted(set(d for _, d in fn.back_edges()))
+    n = 0
+    for p in O.explore(eng, fn):
+        if p.outcome != "return":
+            continue
+        eng.focus(p)
+        nx = p.calls(r"next_with_context$")
+        if len(nx) != 1:
+            continue
+        it = eng.tag_of(nx[0].ret, None)
+        ot = eng.tag_of(eng.field(eng.downcast(nx[0].ret, "Ok"), 0), None)
+        cond = [it == bv64(0), ot == bv64(0)]
+        r, _ = O.solve(list(p.pc) + cond, want_model=False)
+        if r != "sat":
+            continue
+        n += 1
+        R.prove(O, p, z3.And(eng.tag_of(p.ret, None) == bv64(0), eng.tag_of(eng.field(eng.downcast(p.ret, "Ok"), 0), None) == bv64(0)),
+                "get_row reports the end when the interpreter does", extra=cond)
+        after = [e.norm.split("::")[-1] for e in p.trace[p.trace.index(nx[0]) + 1:] if e.kind == "call"]
+        ws = [w for w in p.state.extra.get("writes", []) if w[2] > p.trace.index(nx[0])]
+        if after or ws:
+            R.fail(O, p, "after the interpreter reported the end, get_row still %s" % (("calls " + after[0]) if after else ("stores into " + ws[0][1])), extra=cond)
+    if n == 0:
+        O.inconclusive("vacuous: get_row never sees the end of the program")
 
 
 @obligation("C02/input-capable-signals-are-driven", profiles=("dev",),
